@@ -68,6 +68,11 @@ pub enum FaultKind {
     /// E7 (reformatting tool): whitespace, comments and backslash-newline splices inserted at
     /// token boundaries inside text lines, chosen by the seed `a`
     Trivia,
+    /// E7: every "\n" becomes a lone "\r" (classic Mac line ends)
+    Cr,
+    /// E7: a control character (form feed, vertical tab, Ctrl-Z, DEL, ESC; chosen by `b`) inserted at
+    /// byte offset `a`
+    Control,
     /// E7 (editor / generator artefact): every text line gets a trailing line comment that makes it
     /// longer than 240 bytes, with multi-byte characters at varying offsets
     LongLines,
@@ -124,6 +129,8 @@ pub fn kind_name(k: &FaultKind) -> &'static str {
         FaultKind::Stale => "stale",
         FaultKind::Trivia => "trivia",
         FaultKind::LongLines => "long_lines",
+        FaultKind::Cr => "cr",
+        FaultKind::Control => "control",
     }
 }
 
@@ -144,6 +151,8 @@ pub const ALL_KINDS: &[&str] = &[
     "stale",
     "trivia",
     "long_lines",
+    "cr",
+    "control",
 ];
 
 fn kind_from_name(s: &str) -> Option<FaultKind> {
@@ -164,6 +173,8 @@ fn kind_from_name(s: &str) -> Option<FaultKind> {
         "stale" => FaultKind::Stale,
         "trivia" => FaultKind::Trivia,
         "long_lines" => FaultKind::LongLines,
+        "cr" => FaultKind::Cr,
+        "control" => FaultKind::Control,
         _ => return None,
     })
 }
@@ -427,6 +438,15 @@ pub fn apply_content_faults(
             }
             FaultKind::Trivia => contents = insert_trivia(&contents, f.a),
             FaultKind::LongLines => contents = long_lines(&contents, f.a),
+            FaultKind::Cr => contents = contents.replace("\r\n", "\n").replace('\n', "\r"),
+            FaultKind::Control => {
+                let mut o = (f.a as usize).min(contents.len());
+                while !contents.is_char_boundary(o) {
+                    o -= 1;
+                }
+                let c = ['\u{c}', '\u{b}', '\u{1a}', '\u{7f}', '\u{1b}', '\u{8}'][(f.b % 6) as usize];
+                contents.insert(o, c);
+            }
             FaultKind::NotFound | FaultKind::NotText | FaultKind::RealName => {}
         }
         if contents != before {
